@@ -65,7 +65,7 @@ def run(R, ctx):
     p = ctx.ip.prov(b.path)
     assigns = [bb for bb in sorted(b.normal_blocks()) for s in b.blocks[bb]['stmts'] if s['k'] == 'assign' and s['place']['p'] and s['place']['p'][-1]['k'] == 'deref' and
                'Box<dyn std::io::Write + std::marker::Send>' in b.local_ty(s['place']['l'])]
-    opens = [bb for bb, t in b.calls() if callee_name(t) == 'std::fs::OpenOptions::open']
+    opens = [x[0] for x in ctx.cg.call_sites_reaching(b, lambda n_, t_: n_ == 'std::fs::OpenOptions::open')]      # direct, or through a private helper
     ok = bool(assigns) and all(any(C.dominates(b, e[0], a) for o in opens for e in ok_block_of_call(b, o)) for a in assigns)
     R.check('R18.2', f"{b.path}|assign-after-open", ok, f"{len(assigns)} writer assignments, each dominated by the Ok edge of an open", "reopen replaces the writer without a successful open", where=b.loc())
 
